@@ -28,6 +28,9 @@ def run(ctx):
                 'lookups (9 ordered currency pairs x 6 dates + default date): get_rate value, direction, None, and '
                 'converter(money, currency, date) = amount x reported rate are compared with the specification.')
     ctx.assumptions = ['where the exact quotient has more than six decimals the reported rate must be its C09 normal form, rounded once (harness-side comparison)']
+    mconvcheck.fixpoint(ctx, 'mixed', ['y2020', 'sy2020', 'y2021', 'none', 'm2020_1', 'd2020_1_15'] +
+                        ([] if ctx.tier == 'quick' else ['m2020_2', 'sm2020_01', 'd2021_2_1', 'y0', 'm13']),
+                        ['x2', 'x4', 'y5', 'x2y5', 'x12', 'y85', 'x4ybad'] + ([] if ctx.tier == 'quick' else ['y125', 'xx', 'empty']))
     for name, sps, sls, steps in CONFIGS[ctx.tier]:
         mconvcheck.run_config(ctx, name, sps, sls, steps)
 
